@@ -835,3 +835,42 @@ def lst1_link_repairs(P, R, L, rule="LST-1"):
                                   for r in pn.return_blocks())
         R.check(rule, LIST + "push_node|every-path-links-the-node", every, where(pn), "every path links the node behind the old tail (or as head), makes it the tail and counts it", "")
     R.floor(rule, "link repairs examined", n, 10)
+
+
+# ------------------------------------------------------------------------------------------- ORD-23 the log reader's position follows the file cursor
+READ_PHYS = "logs::LogReader::read_physical_record"
+
+
+def ord23_reader_position_follows_the_file(P, R, L, rule="ORD-23"):
+    """LogReader::read_physical_record keeps two positions next to the file's own cursor: `current_cursor_position` (compared
+    with the file length to decide whether a log may be re-used) and `current_block_offset` (where the 32 KiB block ends
+    and a trailer has to be skipped).  Once a fragment was read COMPLETELY (the `bytes read >= expected` edge of the payload
+    read) the file cursor stands behind it, whatever the parser then says about it - so from that edge every path to a
+    return, the error returns of the parser included, passes a store to each of the two fields.  A fragment that fails
+    its checksum is skipped by read_record; if it is not counted the reader is `payload length` bytes behind the file
+    for the rest of the log, misses the block trailer and loses the intact records of the following blocks (defect D21)."""
+    from ..rules import result_tests
+    b = P.body(READ_PHYS)
+    if b is None:
+        return R.missing_anchor(rule, READ_PHYS)
+    R.analysed(b)
+    reads = [c for c in b.calls() if not b.is_cleanup(c.bb) and (c.declared_name or c.name or "").endswith("::read") and "read_exact" not in (c.name or "")]
+    reads.sort(key=lambda c: c.line or 0)
+    if len(reads) < 2:
+        return R.check(rule, READ_PHYS + "|shape", False, where(b), "a header read followed by a payload read", "%d short-read-capable reads" % len(reads))
+    payload = reads[-1]
+    n_is = lambda os_: any(o.kind == "call" and o.site is not None and o.site.bb == payload.bb for o in os_)
+    full = []
+    for c in comparisons(b):
+        full += c.edges_where("ge", n_is, lambda os_: True)
+    bad = []
+    for fld in ("current_cursor_position", "current_block_offset"):
+        sts = [s[0] for s in field_stores(b, fld) if not b.is_cleanup(s[0])]
+        for (sb, t) in full:
+            for r in b.return_blocks():
+                if r in b.reachable(t) and r in b.reachable(t, removed_nodes=set(sts) - {t}) and t not in sts:
+                    bad.append("a return is reachable from the complete-read edge (bb%d->bb%d) without a store to %s" % (sb, t, fld))
+                    break
+    R.check(rule, READ_PHYS + "|a-completely-read-fragment-is-always-counted", bool(full) and not bad, where(b),
+            "from the `payload bytes read >= expected` edge every path to a return (parse errors included) advances current_cursor_position and current_block_offset",
+            "; ".join(sorted(set(bad))) or "complete-read edges %d" % len(full))
